@@ -9,6 +9,9 @@ FLAGS = ['-d', '--debug-parser', '--debug-generator', '--debug-filename']
 NAMES = ['plain.prolog', 'with space.prolog', 'ünï.prolog', 'family\ntree v2.prolog', 'cr\rname.prolog', "quote'.prolog", '#hash.prolog', '-dash.prolog']
 
 
+BROKEN_TAILS = ["\nfoo(a) :- .\n", "\n) stray.\n", "\nfoo('unterminated).\n", "\nfoo(a)\n", '\np("dq").\n']
+
+
 def cli(args, stdin=None, cwd=None):
     env = dict(os.environ)
     env['PYTHONPATH'] = os.path.join(common.REPO, 'src')
@@ -53,7 +56,7 @@ def case(rep, drv, rnd, i, tier):
     broken = rnd.random() < 0.15
     if broken:
         k = rnd.randrange(nsrc)
-        texts[k] = texts[k] + rnd.choice(["\nfoo(a) :- .\n", "\n) stray.\n", "\nfoo('unterminated).\n", "\nfoo(a)\n", '\np("dq").\n'])
+        texts[k] = texts[k] + rnd.choice(BROKEN_TAILS)
     if rnd.random() < 0.12:
         # a byte order mark: not a character of the grammar, for the library and for the command line alike
         k = rnd.randrange(nsrc)
@@ -111,9 +114,12 @@ def case(rep, drv, rnd, i, tier):
                 rep.violation(dict(payload, kind='exit status 0 although a source does not compile'))
                 return
             bad = [l for l in lib if l[0] != 'ok'][0]
-            if broken and bad[1] != 'CompilerError':
-                rep.violation(dict(payload, kind='a syntax error is not reported as a CompilerError with file name and position but as %s: %s' % (bad[1], bad[2][:200])))
-                return
+            # (only the sources into which a syntax error was injected: a generated program may also make the
+            # compiler proper give up, with an exception of its own)
+            for t_, l_ in zip(texts, lib):
+                if (t_.startswith('\ufeff') or any(t_.endswith(b_) for b_ in BROKEN_TAILS)) and l_[0] != 'ok' and l_[1] != 'CompilerError':
+                    rep.violation(dict(payload, kind='a syntax error is not reported as a CompilerError with file name and position but as %s: %s' % (l_[1], l_[2][:200])))
+                    return
             if bad[1] == 'CompilerError':
                 # file:line:col of the library's error must be in the CLI's message
                 # (the position is taken from the exception object, not from its text: a message that
